@@ -317,3 +317,14 @@ Definition radix_word (w : stext) : bool :=
   match w with z :: m :: _ => (z =? 48) && ((m =? 120) || (m =? 98)) | _ => false end.
 Definition known_d26 (p : piece) : bool := tk_eqb (pk p) T_Id && radix_word (pw p).
 Definition outside_known (ps : list piece) : bool := negb (existsb known_d26 ps).
+
+(** * Where the side condition is deliberately coarser than the lexer ([follow_ok] may be false although
+    the lexer does not merge): a signed decimal / hex / binary integer directly followed by a letter or '_'
+    that is no digit of its base (+12x, 0x1g, 0b12: the lexer, like llvm-tblgen, ends the integer there; the
+    reference grammar is ambiguous), '#' followed by a directive word that goes on (#ifdefx), and the
+    directives themselves.  Everywhere else the side condition is EXACT (C14_side_condition_exact). *)
+Definition conservative (k : TokenKind) (a : stext) : bool :=
+  ((tk_eqb k T_IntVal || tk_eqb k T_BinaryIntVal) && negb (forallb digit a))
+  || tk_eqb k T_Paste || kind_in directives k.
+Fixpoint no_conservative (ps : list piece) : bool :=
+  match ps with [] => true | p :: rest => negb (conservative (pk p) (pw p)) && no_conservative rest end.
